@@ -117,4 +117,4 @@ class TG2(TG2Data, TGBase):
                                 enable=self.config.hardlimit,
                                 )
 
-        self.pout.e_str = 'pnl * plim_zi + pmax * plim_zu + pmin * plim_zl - pout'
+        self.pout.e_str = 'ue * (pnl * plim_zi + pmax * plim_zu + pmin * plim_zl) - pout'
